@@ -723,3 +723,78 @@ Proof.
   { intros x [E|H]; apply in_seq; [subst; lia|]. apply In_col_lists in H. rewrite LR in H. lia. }
   pose proof (NoDup_incl_length (NoDup_cons c Hnc ND) Hincl) as HL. rewrite seq_length in HL. simpl in HL. lia.
 Qed.
+
+(* ---------- distributed Ruge-Stuben: sequential RS on each rank's diagonal block ---------- *)
+From Raptor Require Import Amg.SplitPar.
+
+Lemma NoDup_map_sub lo l : NoDup l -> (forall c, In c l -> lo <= c) -> NoDup (map (fun c => c - lo) l).
+Proof.
+  induction 1 as [|x l Hx Hl IH]; intros Hge; simpl; [constructor|]. constructor.
+  - intros H. apply in_map_iff in H. destruct H as [y [E Hy]].
+    assert (lo <= x) by (apply Hge; left; reflexivity). assert (lo <= y) by (apply Hge; right; exact Hy).
+    assert (y = x) by lia. subst y. contradiction.
+  - apply IH. intros c Hc. apply Hge. right; exact Hc.
+Qed.
+
+Lemma nth_firstn' {A} (l : list A) : forall k i d, i < k -> nth i (firstn k l) d = nth i l d.
+Proof.
+  induction l as [|x l IH]; intros k i d H; [destruct k, i; reflexivity|].
+  destruct k as [|k]; [lia|]. destruct i as [|i]; simpl; [reflexivity|]. apply IH. lia.
+Qed.
+Lemma nth_skipn' {A} (l : list A) : forall k i d, nth i (skipn k l) d = nth (k + i) l d.
+Proof.
+  induction l as [|x l IH]; intros k i d; [destruct k, i; reflexivity|].
+  destruct k as [|k]; simpl; [reflexivity|]. apply IH.
+Qed.
+
+Lemma local_graph_props S b :
+  rows_nodup S -> fst b + snd b <= length S ->
+  length (local_graph S b) = snd b /\ graph_wfb (local_graph S b) = true /\ rows_nodup (local_graph S b).
+Proof.
+  intros Hnd Hr. unfold local_graph.
+  assert (L : length (firstn (snd b) (skipn (fst b) S)) = snd b).
+  { rewrite firstn_length, skipn_length. lia. }
+  split; [rewrite map_length; exact L|]. split.
+  - apply graph_wfb_spec. intros i c Hc. rewrite map_length, L.
+    destruct (Nat.lt_ge_cases i (snd b)) as [Hi|Hi].
+    + rewrite (nth_indep _ [] (map (fun c => c - fst b) (filter (in_block b) []))) in Hc by (rewrite map_length, L; exact Hi).
+      rewrite (map_nth (fun row => map (fun c => c - fst b) (filter (in_block b) row))) in Hc.
+      apply in_map_iff in Hc. destruct Hc as [c0 [E Hc0]]. apply filter_In in Hc0. destruct Hc0 as [_ Hin].
+      unfold in_block in Hin. apply andb_true_iff in Hin. destruct Hin as [H1 H2].
+      apply Nat.leb_le in H1. apply Nat.ltb_lt in H2. lia.
+    + rewrite nth_overflow in Hc by (rewrite map_length, L; exact Hi). destruct Hc.
+  - intros i. destruct (Nat.lt_ge_cases i (snd b)) as [Hi|Hi].
+    + rewrite (nth_indep _ [] (map (fun c => c - fst b) (filter (in_block b) []))) by (rewrite map_length, L; exact Hi).
+      rewrite (map_nth (fun row => map (fun c => c - fst b) (filter (in_block b) row))).
+      apply NoDup_map_sub.
+      * apply NoDup_filter. rewrite nth_firstn' by exact Hi. rewrite nth_skipn'. apply Hnd.
+      * intros c Hc. apply filter_In in Hc. destruct Hc as [_ Hin]. unfold in_block in Hin.
+        apply andb_true_iff in Hin. destruct Hin as [H1 _]. apply Nat.leb_le in H1. exact H1.
+    + rewrite nth_overflow by (rewrite map_length, L; exact Hi). constructor.
+Qed.
+
+(* on every rank: points that set_initial_states left unassigned end coarse or fine, NoNeighbors points keep
+   their label, and a fine point has a coarse neighbour inside the diagonal block *)
+Theorem par_rs_block (S : graph) (b : nat * nat) (st0 : list label) (second : bool) :
+  rows_nodup S -> fst b + snd b <= length S -> length st0 = length S ->
+  (forall v, nth v st0 LU = LU \/ nth v st0 LU = LN) ->
+  let G := local_graph S b in
+  let init := firstn (snd b) (skipn (fst b) st0) in
+  let st := split_rs_gen G (Some init) second in
+  length st = snd b /\
+  forall i, i < snd b ->
+    (nth i init LU = LU -> nth i st LU = LC \/ nth i st LU = LF) /\
+    (nth i init LU = LN -> nth i st LU = LN) /\
+    (nth i st LU = LF -> exists c, In c (nth i (off_rows G) []) /\ nth c st LU = LC).
+Proof.
+  intros Hnd Hr L0 HT G init st.
+  destruct (local_graph_props S b Hnd Hr) as [LG [Hwf HndG]]. fold G in LG, Hwf, HndG.
+  assert (Li : length init = length G).
+  { unfold init. rewrite firstn_length, skipn_length. lia. }
+  destruct (rs_total G (Some init) second Hwf (in_degree_bound G Hwf HndG) Li) as [L T]. fold st in L, T.
+  split; [congruence|]. intros i Hi. rewrite <- LG in Hi. destruct (T i Hi) as [T1 T2]. split; [exact T1|]. split.
+  - intros HN. destruct T2 as [H|[H _]]; [rewrite HN; discriminate|congruence|congruence].
+  - intros HF. destruct (rs_fine_has_coarse G (Some init) second i Li HF) as [H|H]; [|exact H].
+    exfalso. unfold init in H. rewrite nth_firstn' in H by lia. rewrite nth_skipn' in H.
+    destruct (HT (fst b + i)) as [E|E]; congruence.
+Qed.
